@@ -3,19 +3,21 @@
 package c08
 
 import (
-	"crypto"
-	"crypto/x509"
 	"bytes"
 	"compress/flate"
-	"crypto/rand"
+	"crypto"
+	"crypto/x509"
 	"encoding/base64"
+	"encoding/hex"
 	"encoding/xml"
+	"errors"
 	"fmt"
 	"io"
 	"net/http"
 	"net/http/httptest"
 	"net/url"
 	"os"
+	"os/exec"
 	"runtime/debug"
 	"strings"
 	"testing"
@@ -88,8 +90,10 @@ type Case struct {
 	Seq [][]KD `json:"seq,omitempty"`
 
 	// fresh: a sequence of responses; Rand non-empty = bytes fed to xmlenc.RandReader
-	N    int    `json:"n,omitempty"`
-	Rand []byte `json:"rand,omitempty"`
+	N int `json:"n,omitempty"`
+	// CrossProcess (fresh, default source): also compare with the first responses of two freshly started processes
+	CrossProcess bool   `json:"cross_process,omitempty"`
+	Rand         []byte `json:"rand,omitempty"`
 
 	// spmeta: one defect class, judged as plaintext and as ciphertext
 	Defect string `json:"defect,omitempty"`
@@ -106,6 +110,8 @@ type Case struct {
 	Block  string `json:"block,omitempty"` // aes128-cbc | aes192-cbc | aes256-cbc | tripledes-cbc
 	Blocks int    `json:"blocks,omitempty"`
 	Final  int    `json:"final,omitempty"`
+	// cvlen: a cipher value of Len octets of filler under any declared block algorithm (Block also takes the GCM names)
+	Len int `json:"len,omitempty"`
 }
 
 func certText(k KD) (string, bool) {
@@ -572,7 +578,7 @@ func checkFresh(c Case) pbt.Result {
 		rec = &recorder{src: c.Rand}
 		xmlenc.RandReader = rec
 		res.Classes = append(res.Classes, "fresh:recorded-source")
-		defer func() { xmlenc.RandReader = rand.Reader }()
+		defer func() { xmlenc.RandReader = fix.LibXMLEncRand }()
 	} else {
 		res.Classes = append(res.Classes, "fresh:default-source")
 	}
@@ -642,7 +648,83 @@ func checkFresh(c Case) pbt.Result {
 		}
 		seen = append(seen, kv{key, iv})
 	}
+	if c.CrossProcess && rec == nil {
+		// other processes (a restarted IdP, a second replica) draw their keys and IVs independently: two fresh
+		// processes of this very binary report what their first responses used
+		res.Classes = append(res.Classes, "fresh:across-processes")
+		for p := 0; p < 2; p++ {
+			pairs, err := childKeys()
+			if err != nil {
+				return pbt.Result{Skip: true} // the binary cannot re-execute itself here: not a verdict
+			}
+			for ci, cp := range pairs {
+				for j, sp := range seen {
+					if bytes.Equal(sp.key, cp.key) {
+						res.Err = fmt.Sprintf("response %d of a fresh process (#%d) uses the same content-encryption key %x as an earlier response (%d) of another process", ci, p, cp.key, j)
+						return res
+					}
+					if bytes.Equal(sp.iv, cp.iv) {
+						res.Err = fmt.Sprintf("response %d of a fresh process (#%d) uses the same IV %x as an earlier response (%d) of another process", ci, p, cp.iv, j)
+						return res
+					}
+				}
+			}
+			for _, cp := range pairs {
+				seen = append(seen, kv{cp.key, cp.iv})
+			}
+		}
+	}
 	return res
+}
+
+type keyIV struct{ key, iv []byte }
+
+var childSession = Session{NameID: "mnameid0123456789", Email: "memail0123456789@example.com", Name: "mname0123456789", Index: "idx0123456789", Custom: "mcustom0123456789"}
+
+// childKeys runs this test binary again (TestChildKeys only) and returns the content keys and IVs of its responses.
+func childKeys() ([]keyIV, error) {
+	exe, err := os.Executable()
+	if err != nil {
+		return nil, err
+	}
+	cmd := exec.Command(exe, "-test.run", "^TestChildKeys$", "-test.count=1")
+	cmd.Env = append(os.Environ(), "VERIF_C08_CHILD=1", "VERIF_REPLAY=", "VERIF_OUT=")
+	out, err := cmd.Output()
+	if err != nil {
+		return nil, err
+	}
+	var pairs []keyIV
+	for _, line := range strings.Split(string(out), "\n") {
+		f := strings.Fields(line)
+		if len(f) == 3 && f[0] == "KEYIV" {
+			k, e1 := hex.DecodeString(f[1])
+			v, e2 := hex.DecodeString(f[2])
+			if e1 == nil && e2 == nil {
+				pairs = append(pairs, keyIV{k, v})
+			}
+		}
+	}
+	if len(pairs) == 0 {
+		return nil, errors.New("child reported nothing")
+	}
+	return pairs, nil
+}
+
+// TestChildKeys is the child side of childKeys: three responses with the library's default random source.
+func TestChildKeys(t *testing.T) {
+	if os.Getenv("VERIF_C08_CHILD") != "1" {
+		t.Skip("only as a child of the cross-process freshness case")
+	}
+	fix.Reset()
+	curIDPNoise, curValidity = 0, ""
+	idp := newIDP(metadata([]KD{{Use: "encryption", Cert: "rsa"}}), childSession)
+	for i := 0; i < 3; i++ {
+		s := childSession
+		s.NameID = fmt.Sprintf("%s-%d", s.NameID, i)
+		idp.SessionProvider = sessProvider{mkSession(s)}
+		_, key, iv := inspect(emit(idp, "POST"), s, true, "rsa")
+		fmt.Printf("KEYIV %x %x\n", key, iv)
+	}
 }
 
 // ---- SP side
@@ -853,7 +935,63 @@ func checkTamper(c Case) pbt.Result {
 	return res
 }
 
-var blockURIs = map[string]string{"aes128-cbc": refenc.AES128CBC, "aes192-cbc": refenc.AES192CBC, "aes256-cbc": refenc.AES256CBC, "tripledes-cbc": refenc.TripleDESCBC}
+var blockURIs = map[string]string{"aes128-cbc": refenc.AES128CBC, "aes192-cbc": refenc.AES192CBC, "aes256-cbc": refenc.AES256CBC, "tripledes-cbc": refenc.TripleDESCBC,
+	"aes128-gcm": refenc.AES128GCM, "aes192-gcm": refenc.AES192GCM, "aes256-gcm": refenc.AES256GCM}
+
+var blockNames = []string{"aes128-cbc", "aes192-cbc", "aes256-cbc", "tripledes-cbc", "aes128-gcm", "aes192-gcm", "aes256-gcm"}
+
+// checkLen: an EncryptedAssertion anybody can make (key wrapped to the SP's public certificate) that declares any of
+// the seven block algorithms and whose cipher value is Len octets of filler - shorter than an IV or nonce, not a
+// multiple of the block size, shorter than a GCM tag, empty: a validation failure, never a panic, never accepted.
+func checkLen(c Case) pbt.Result {
+	res := pbt.Result{NonTrivial: true, Classes: []string{"cvlen", "cvlen:" + c.Block}}
+	uri := blockURIs[c.Block]
+	spec, ok := refenc.Spec(uri)
+	if !ok || c.Len < 0 || c.Len > 4096 {
+		return pbt.Result{Skip: true}
+	}
+	st := &stream{x: c.Seed ^ 0xdef}
+	key, iv := st.bytes(spec.KeyLen), st.bytes(16)
+	cbc := refenc.AES128CBC
+	if spec.KeyLen == 24 {
+		cbc = refenc.AES192CBC
+	} else if spec.KeyLen == 32 {
+		cbc = refenc.AES256CBC
+	}
+	if c.Block == "tripledes-cbc" {
+		cbc = refenc.TripleDESCBC
+	}
+	// built with the CBC algorithm of the same key size, then relabelled: only the declared algorithm and the
+	// cipher value matter to the receiver
+	ea, err := refenc.EncryptedAssertion([]byte("<x/>"), fix.Get("sp").Cert, refenc.Options{BlockAlg: cbc, KeyTransport: refenc.RSAOAEPMGF1P, Digest: refenc.DigestSHA1, IV: iv[:map[bool]int{true: 8, false: 16}[c.Block == "tripledes-cbc"]], ContentKey: key, Rand: st, Sibling: c.EncLay == "sibling"})
+	if err != nil {
+		return pbt.Result{Err: "harness: " + err.Error()}
+	}
+	if em := ea.FindElement("./EncryptedData/EncryptionMethod"); em != nil {
+		em.CreateAttr("Algorithm", uri)
+	}
+	cv := ea.FindElement("./EncryptedData/CipherData/CipherValue")
+	if cv == nil {
+		return pbt.Result{Err: "harness: no CipherValue"}
+	}
+	cv.SetText(base64.StdEncoding.EncodeToString(st.bytes(c.Len)))
+	r := spkit.Baseline(fix.Epoch, "id-req", "")
+	r.Assertions = nil
+	el, err := forge.ResponseElement(&r)
+	if err != nil {
+		return pbt.Result{Err: "harness: " + err.Error()}
+	}
+	el.AddChild(ea)
+	o := spkit.ParseXML(spkit.NewSP(spkit.Config{Trust: "meta1"}), forge.Bytes(el), []string{"id-req"}, spkit.SPACS)
+	if o.Panic != "" {
+		res.Err = fmt.Sprintf("EncryptedAssertion declaring %s with a cipher value of %d octets: panic: %s", c.Block, c.Len, o.Panic)
+		return res
+	}
+	if o.Accepted() {
+		res.Err = fmt.Sprintf("EncryptedAssertion declaring %s with %d octets of filler was accepted: %s", c.Block, c.Len, o.Describe())
+	}
+	return res
+}
 
 // checkPad: malformed (or accidentally well-formed) padding in every CBC cipher must be a
 // validation failure through the SP, never a panic and never an accepted assertion: the
@@ -945,6 +1083,8 @@ func check1(c Case) pbt.Result {
 	switch c.Kind {
 	case "pad":
 		return checkPad(c)
+	case "cvlen":
+		return checkLen(c)
 	case "idp":
 		return checkIDP(c)
 	case "fresh":
@@ -1003,7 +1143,10 @@ func gen(t *rapid.T) Case {
 }
 
 func gen0(t *rapid.T) Case {
-	switch rapid.IntRange(0, 11).Draw(t, "kind") {
+	switch rapid.IntRange(0, 12).Draw(t, "kind") {
+	case 12:
+		return Case{Kind: "cvlen", Block: rapid.SampledFrom(blockNames).Draw(t, "block"), Len: rapid.SampledFrom([]int{0, 1, 7, 8, 11, 12, 15, 16, 17, 27, 28, 29, 31, 32, 33, 47, 48, 64, 100, 1000}).Draw(t, "len") + rapid.IntRange(0, 1).Draw(t, "lenplus"),
+			Seed: rapid.Uint64Range(0, 1<<40).Draw(t, "seed"), EncLay: rapid.SampledFrom([]string{"", "sibling"}).Draw(t, "enclay")}
 	case 11:
 		return Case{Kind: "pad", Block: rapid.SampledFrom([]string{"aes128-cbc", "aes192-cbc", "aes256-cbc", "tripledes-cbc"}).Draw(t, "block"), Blocks: rapid.IntRange(1, 4).Draw(t, "blocks"),
 			Final: rapid.IntRange(0, 255).Draw(t, "final"), Seed: rapid.Uint64Range(0, 1<<40).Draw(t, "seed"), EncLay: rapid.SampledFrom([]string{"", "sibling"}).Draw(t, "enclay")}
@@ -1097,6 +1240,8 @@ func enumIDPOptions(_ string, emit func(Case)) {
 		}
 		emit(Case{Kind: "fresh", Session: s, N: 8, IDPNoise: n})
 	}
+	emit(Case{Kind: "fresh", Session: s, N: 8, CrossProcess: true})
+	emit(Case{Kind: "fresh", Session: s, N: 9, CrossProcess: true})
 }
 
 // enumMethods: a usable key whose descriptor lists EncryptionMethod elements - every single algorithm,
@@ -1141,6 +1286,18 @@ func enumRekey(_ string, emit func(Case)) {
 				for _, c := range regs {
 					emit(Case{Kind: "rekey", Session: s, Method: m, Seq: [][]KD{a, b, c}})
 				}
+			}
+		}
+	}
+}
+
+// enumLen: every declared block algorithm x every cipher value length 0..66 octets, nested and sibling key.
+func enumLen(_ string, emit func(Case)) {
+	for _, b := range blockNames {
+		for n := 0; n <= 66; n++ {
+			emit(Case{Kind: "cvlen", Block: b, Len: n, Seed: 5})
+			if n%5 == 0 {
+				emit(Case{Kind: "cvlen", Block: b, Len: n, Seed: 6, EncLay: "sibling"})
 			}
 		}
 	}
@@ -1193,14 +1350,14 @@ func enumSP(_ string, emit func(Case)) {
 var prop = &pbt.Prop[Case]{
 	ID: "C08",
 	Rule: "cases: (idp) sessions whose strings carry unique alphanumeric markers x registered SP metadata whose KeyDescriptor list is any sequence over use in {encryption, omitted, signing} x certificate in {valid RSA, second valid RSA, valid EC, empty, white space, not base64, base64 of garbage, no X509Certificate element} x optional EncryptionMethod lists beside the key (block ciphers, key transports, unknown and blank algorithms) x validUntil / cacheDuration statements of the registered metadata (lapsed or not, on the role descriptor or the entity) x IdentityProvider options (Signer instead of Key, signature method, intermediates, ValidDuration, login/logout URLs, ECDSA key) and the optional session fields (subject id, surname, given name, scoped affiliation, name ID format) through ServeSSO (POST, GET) and ServeIDPInitiated " +
-		"(all sequences of length <= 2 enumerated, <= 3 in thorough); (fresh) sequences of 8-12 responses served by one long-lived IdentityProvider with the default random source (pairwise distinct content keys and IVs) and with a recording xmlenc.RandReader fed generated bytes (key and IV are values drawn for that response, >= 32 bytes consumed); " +
-		"(spmeta) one assertion with a chosen defect presented in clear and encrypted to the SP: the verdicts must agree and match the defect; (tamper) ciphertext encrypted to another key, assertions encrypted by a party without the IdP key, flipped / truncated / reordered cipher values. " +
+		"(all sequences of length <= 2 enumerated, <= 3 in thorough); (fresh) sequences of 8-12 responses served by one long-lived IdentityProvider with the default random source (pairwise distinct content keys and IVs, also against the first responses of two freshly started processes of the same binary) and with a recording xmlenc.RandReader fed generated bytes (key and IV are values drawn for that response, >= 32 bytes consumed); " +
+		"(spmeta) one assertion with a chosen defect presented in clear and encrypted to the SP: the verdicts must agree and match the defect; (tamper) ciphertext encrypted to another key, assertions encrypted by a party without the IdP key, flipped / truncated / reordered cipher values; (cvlen) cipher values of every length 0..66 of filler under each of the seven declared block algorithms (CBC and GCM), key wrapped to the SP's certificate. " +
 		"oracle: advertises = some descriptor usable for encryption has non-blank certificate text => reply is an error status or a form with exactly one EncryptedAssertion, no clear Assertion and no session marker anywhere in the HTML or decoded XML; with a valid RSA certificate first the reply must succeed, an independent stdlib decryptor with the SP key recovers a signed assertion carrying all markers and no other private key does. " +
 		"non-trivial: (idp) >= 2 descriptors, a defective certificate or an EncryptionMethod list; fresh and tamper always; (spmeta) the defect is not 'none'. distinct: sha256 of the JSON case.",
 	Gen:   gen,
 	Check: check,
 	Reset: fix.Reset,
-	Enums: []pbt.Enum[Case]{{Name: "key-descriptor-layouts", Each: enumLayouts}, {Name: "sp-defects-and-tampering", Each: enumSP}, {Name: "re-registration-sequences", Each: enumRekey}, {Name: "cbc-padding-through-the-sp", Each: enumPad}, {Name: "encryption-method-lists", Each: enumMethods}, {Name: "metadata-validity-statements", Each: enumValidity}, {Name: "idp-options-and-optional-session-fields", Each: enumIDPOptions}},
+	Enums: []pbt.Enum[Case]{{Name: "key-descriptor-layouts", Each: enumLayouts}, {Name: "sp-defects-and-tampering", Each: enumSP}, {Name: "re-registration-sequences", Each: enumRekey}, {Name: "cbc-padding-through-the-sp", Each: enumPad}, {Name: "cipher-value-lengths-through-the-sp", Each: enumLen}, {Name: "encryption-method-lists", Each: enumMethods}, {Name: "metadata-validity-statements", Each: enumValidity}, {Name: "idp-options-and-optional-session-fields", Each: enumIDPOptions}},
 	Assumptions: []string{
 		"CR is kept out of session strings (separate finding of C07)",
 		"RSA-OAEP randomness drawn from the recording source may include extra bytes (Go's MaybeReadByte); membership of key and IV among the recorded reads is what is checked",
